@@ -436,8 +436,8 @@ pub fn shape_tags(c: &Case) -> Vec<&'static str> {
     }
     // Which chords the presses of the history select, in order ("activation sequence"): the
     // follow-up map of the last selected chord is consulted first, then the top-level chords; a
-    // press that fits no top-level chord, or a release after a press that selected nothing, drops
-    // the follow-up context.  (Timing is ignored: this describes the input, not the outcome.)
+    // press that fits neither a follow-up nor a top-level chord, or a release after a press that
+    // selected nothing, drops the follow-up context.  (Timing is ignored: this describes the input, not the outcome.)
     struct Act {
         hold: usize,
         last_press_of_hold: bool,
@@ -471,7 +471,10 @@ pub fn shape_tags(c: &Case) -> Vec<&'static str> {
                     }
                     None => {
                         last_was_chord = false;
-                        if !root.iter().any(|r| is_subset(&part, r)) {
+                        let in_followup = ctx.as_ref().map_or(false, |p| {
+                            nodes.iter().any(|(x, _)| x.len() == p.len() + 1 && x[..p.len()] == p[..] && is_subset(&part, &x[p.len()]))
+                        });
+                        if !in_followup && !root.iter().any(|r| is_subset(&part, r)) {
                             ctx = None;
                             break;
                         }
@@ -507,25 +510,29 @@ pub fn shape_tags(c: &Case) -> Vec<&'static str> {
         // the shared prefix is no longer (completely) on screen: some backspace of the earlier
         // expansion deleted part of it, and re-typing only the rest of the new expansion after
         // `display_len - cp` backspaces does not give the new expansion
-        let type_on = |base: &mut Vec<(u8, u16)>, outs: &[Out]| {
-            for o in outs {
+        // (the first keystroke of what is typed goes out under the user's shift, if held and if it
+        // is the first character of the expansion)
+        let type_on = |base: &mut Vec<(u8, u16)>, outs: &[Out], first_shifted: bool| {
+            for (i, o) in outs.iter().enumerate() {
                 if o.code == K_BSPC {
                     base.pop();
+                } else if o.code == K_SPC {
+                    base.push((0, o.code));
                 } else {
-                    base.push((o.kind & 3, o.code));
+                    base.push(((o.kind & 3) | if i == 0 && first_shifted { 1 } else { 0 }, o.code));
                 }
             }
         };
         let pad: Vec<(u8, u16)> = vec![(9, 0); 8];
         let mut screen = pad.clone();
-        type_on(&mut screen, &a.outs);
+        type_on(&mut screen, &a.outs, shift);
         let dl: i32 = a.outs.iter().map(|o| if o.code == K_BSPC { -1 } else if o.kind >= 4 { 0 } else { 1 }).sum();
         for _ in 0..(dl - cp as i32).max(0) {
             screen.pop();
         }
-        type_on(&mut screen, &b.outs[cp..]);
+        type_on(&mut screen, &b.outs[cp..], shift && cp == 0);
         let mut ideal = pad.clone();
-        type_on(&mut ideal, &b.outs);
+        type_on(&mut ideal, &b.outs, shift);
         if screen != ideal {
             add("shared-prefix-deleted-by-backspace-of-earlier-expansion");
         }
